@@ -119,6 +119,35 @@ class Program:
                 return self.bodies[c]
         return b
 
+    def inl(self, bid, keep=None, depth=2, only=None, same_file=True):
+        """inlined view of a body (see inline.py): in-crate helpers of the same file are spliced into it"""
+        import inline
+        return inline.inlined(self, bid, keep=keep, depth=depth, only=only, same_file=same_file)
+
+    def owner_roots(self, bid, depth=3, _seen=None, stop=()):
+        """the entry points on whose behalf a private helper runs: for a non-pub fn with in-crate callers, the union of
+        the owners of its callers (depth-bounded); otherwise the fn itself. Used by who-writes / who-calls rules so that
+        extracting part of an allowed writer into a private helper does not create a 'new writer'."""
+        b = self.bodies.get(bid)
+        root = b.root if b is not None else bid
+        _seen = _seen if _seen is not None else set()
+        if root in _seen:
+            return set()
+        _seen.add(root)
+        rb = self.bodies.get(root)
+        if rb is None or rb.is_pub or depth <= 0 or rb.impl_trait or root in stop:
+            return {root}
+        callers = set(self.bodies[c].root for c in self.callers_of(root))
+        # an async fn is "called" by its own wrapper: look through to the callers of the poll as well
+        callers |= set(self.bodies[c].root for c in self.callers_of(root + '::{closure#0}'))
+        callers.discard(root)
+        if not callers:
+            return {root}
+        out = set()
+        for c in callers:
+            out |= self.owner_roots(c, depth - 1, _seen, stop)
+        return out or {root}
+
     def bodies_in_file(self, file):
         return list(self.bodies.in_files([file]))
 
